@@ -9,7 +9,7 @@ THEOREMS = ["UrcuVerif.Gp.unregistered_never_scanned", "UrcuVerif.Gp.scan_target
 TRUSTED = ["Lean 4.33 kernel; axioms ⊆ {propext, Classical.choice, Quot.sound}",
            "same model and tie as C01 (Gp/Flip.lean; Driver/Gp.lean tracks registry / cur_snap / qs as ordered lists exactly as cds_list_add/move/del/splice order them, so each scan load must hit the reader the C list order dictates)",
            "registration of a thread that is inside a read-side section is excluded by the API contract (model guard)",
-           "bp flavor (automatic registration, registry arena growth, signal masking) and qsbr are not covered by this check yet"]
+           "bp: automatic registration / exit destructor / slot reuse are exercised by the trace tie (gp_bp.c, up to 17 readers); the registry arena theorems are in Props/C15Bp when present"]
 OWN = {"gp", "litmus"}
 
 
